@@ -193,16 +193,23 @@ pub fn replay(case: &Value) -> Result<String, String> {
 pub fn plan(tier: Tier) -> Plan {
     let mut p = Plan::new("C11", "fault_enumeration");
     let thorough = tier.thorough();
-    p.rule = "for each input (the C07 list - every emission site: header, each node form, index table, count byte, footer, checksum, flush - plus every subset of U_ab2) W = measured number of sink calls of the fault-free run; for every call index 0..W (writes and the final flush), every failure kind {Err(Other), Err(BrokenPipe), Err(PermissionDenied), Ok(0)}, single and persistent, through MapBuilder/SetBuilder/raw::Builder (into_inner and finish) with single inserts and with the whole history as one extend_iter / extend_stream call, and additionally with one benign deviation (every short write / Interrupted at every earlier call) before the fault: the API call during which the failing sink call happens must return Err(Io); no panic; no Ok from a call that saw the fault; accepted bytes stay a prefix of the fault-free output. non-trivial = every injected fault (all distinct by index x kind x mode x api)".into();
+    p.rule = "for each input (the C07 list - every emission site: header, each node form, index table, count byte, footer, checksum, flush - plus every subset of U_ab2 as map and, from 3 keys, as set; a ten-key set and a 40-way fan-out set) W = measured number of sink calls of the fault-free run; for every call index 0..W (writes and the final flush), every failure kind {Err(Other), Err(BrokenPipe), Err(PermissionDenied), Ok(0)}, single and persistent, through MapBuilder/SetBuilder/raw::Builder (into_inner and finish) with single inserts and with the whole history as one extend_iter / extend_stream call, and additionally with one benign deviation (every short write / Interrupted at every earlier call) before the fault: the API call during which the failing sink call happens must return Err(Io); no panic; no Ok from a call that saw the fault; accepted bytes stay a prefix of the fault-free output. non-trivial = every injected fault (all distinct by index x kind x mode x api)".into();
     p.assumptions = vec![
         "the caller stops at the first Err (as with `?`); behaviour of a builder that is used after it returned an error is not asserted".into(),
         "Ok(0) is only injected into write calls, never into flush".into(),
     ];
     let mut inputs: Vec<(String, Vec<Kv>)> = c07::inputs().into_iter().map(|(n, k)| (n.to_string(), k)).collect();
+    // sets (all values zero) large enough that nodes are written DURING the
+    // insert / bulk calls, so that the set entry points see the faults too
+    inputs.push(("set-of-ten-keys".into(), Pat::Zero.apply(&[b"a".to_vec(), b"aa".to_vec(), b"aab".to_vec(), b"ab".to_vec(), b"abc".to_vec(), b"b".to_vec(), b"ba".to_vec(), b"bca".to_vec(), b"c".to_vec(), b"cab".to_vec()])));
+    inputs.push(("set-fanout-40".into(), Pat::Zero.apply(&(0..40u8).flat_map(|b| [vec![b'p', b], vec![b'p', b, b'x']]).collect::<Vec<Key>>())));
     let u = u_ab2();
     for mask in 0..(1u64 << u.keys.len()) {
         if thorough || mask % 5 == 0 {
             inputs.push((format!("U_ab2 mask {}", mask), Pat::Boundary(1).apply(&select(&u.keys, mask))));
+            if mask.count_ones() >= 3 {
+                inputs.push((format!("U_ab2 mask {} as set", mask), Pat::Zero.apply(&select(&u.keys, mask))));
+            }
         }
     }
     for (name, kvs) in inputs {
